@@ -99,7 +99,7 @@ fn cases(run: &Run) -> Vec<Case> {
     if run.thorough() {
         bin_cases.extend([(8, 0.5), (32, 0.5), (128, 0.5), (256, 0.25), (1024, 0.5)]);
     }
-    bin_cases.extend_from_slice(&[(15u64, 0.3), (70, 0.3), (20, 0.5), (15, 0.7), (1, 0.5), (40, 0.01), (70, 0.5), (200, 0.4), (1000, 0.3), (100, 0.8), (1000, 0.97), (10, 0.0), (10, 1.0), (10, 1.0 - 1.1102230246251565e-16), (0, 0.4)]);
+    bin_cases.extend_from_slice(&[(15u64, 0.3), (70, 0.3), (20, 0.5), (15, 0.7), (1, 0.5), (40, 0.01), (70, 0.5), (200, 0.4), (1000, 0.3), (100, 0.8), (1000, 0.97), (10, 0.0), (10, 1.0), (10, 1.0 - 1.1102230246251565e-16), (0, 0.4), (400, 0.375), (400, 0.625), (1000, 0.75), (1000, 0.25)]);
     for &(n, p) in &bin_cases {
         let d = Binomial::new(n, p);
         let q = p.min(1.0 - p);
@@ -903,6 +903,34 @@ fn mvn_affine(run: &Run) {
     }
 }
 
+/// "n independent draws from the law" whatever was sampled before on the thread: each case's sampler is used right
+/// after one draw from the previous case of the same law (and from the next one), judged by the property's
+/// criterion on a seeded stream (sampled)
+fn after_another_object(run: &Run, cs: &[Case]) {
+    let pairs: Vec<(usize, usize)> = (0..cs.len()).flat_map(|i| [(i, i + 1), (i + 1, i)]).filter(|&(a, b)| a < cs.len() && b < cs.len() && cs[a].law == cs[b].law && cs[b].degenerate.is_none()).collect();
+    pairs.par_iter().for_each(|&(a, b)| {
+        let (first, second) = (&cs[a], &cs[b]);
+        let started = std::sync::atomic::AtomicBool::new(false);
+        let f = || {
+            if !started.swap(true, std::sync::atomic::Ordering::Relaxed) {
+                let _ = (first.sample)();
+            }
+            (second.sample)()
+        };
+        let what = format!("{}{} sampled right after one draw from {}{} on the same thread", second.law, second.params, first.law, first.params);
+        let sv = stream_check(&f, &*second.cdf, second.support, second.decl.discrete, 0xAF7E ^ crate::common::run::hash_of(&what) >> 20);
+        run.case();
+        run.trs(sv.n as u64);
+        run.ok();
+        run.nontrivial(1);
+        if sv.fails() {
+            run.violate(&format!("{}/after-another-object/law", second.law), || format!("{}: {}", what, sv.describe()));
+        } else {
+            run.regime("after-another-object:stream-dkw");
+        }
+    });
+}
+
 fn bulk(run: &Run) {
     alea::set_seed(12345);
     let d = Normal::new(0.0, 1.0);
@@ -957,6 +985,7 @@ pub fn run(run: &Run) {
                 run_case(run, c, eps);
                 bulk_case(run, c, eps);
             });
+            after_another_object(run, &cs);
         });
         sc.spawn(|_| {
             let small: Vec<(f64, f64)> = vec![(0.2, 1.0), (0.5, 1.0), (0.9, 4.0)];
